@@ -162,7 +162,8 @@ pub fn gen_response_plan(rng: &mut Rng, uniq: &mut u32, max_data: usize) -> (Vec
         };
         hdr.push(format!("{}{}", stem, *uniq % 1000));
     }
-    let nd = rng.urange(1, max_data.max(1));
+    // now and then a query that answers nothing at all (or with a header only)
+    let nd = if rng.chance(1, 16) { 0 } else { rng.urange(1, max_data.max(1)) };
     let data = (0..nd).map(|_| gen_datum(rng, uniq)).collect();
     (hdr, data)
 }
